@@ -517,6 +517,11 @@ fn build_at(spec: &ProgSpec, orig: u16, force_orig_line: bool) -> Built {
     let nsubs = spec.subs.len().min(3);
     let tail_reader = matches!(spec.fit, 1 | 2) && ending != Ending::RunOff;
     let mut b = B { lines: Vec::new(), pending: None, n_label: 0, brk: false };
+    // `.orig` need not be the first line: one program in eight writes a `.break` above it (which
+    // marks the first statement, at the origin declared below)
+    if orig_line && spec.fit == 0 && (spec.orig_val >> 12) & 7 == 5 {
+        b.lines.push(Line { label: None, body: Body::Break });
+    }
     if orig_line {
         b.lines.push(Line { label: None, body: Body::Orig(Lit::Hex(orig, (spec.orig_sel & 3) as u8)) });
     }
